@@ -709,6 +709,15 @@ def rule_PC1(repo: Repo) -> RuleResult:
             and s.value.func.attr == "append"]
     loops = [l for l in walk_no_nested(f.node) if isinstance(l, ast.For) and isinstance(l.iter, ast.Call) and norm(l.iter.func) == "zip"
              and len(l.iter.args) == 2 and norm(l.iter.args[1]) == norm(l.iter.args[0]) + "[1:]"]
+    # the same pairs by index:  for i in range(len(X) - 1): .. X[i] .. X[i + 1] ..
+    for l in walk_no_nested(f.node):
+        if isinstance(l, ast.For) and isinstance(l.target, ast.Name) and isinstance(l.iter, ast.Call) and norm(l.iter.func) == "range" \
+                and len(l.iter.args) == 1 and isinstance(l.iter.args[0], ast.BinOp) and isinstance(l.iter.args[0].op, ast.Sub) \
+                and const_int(l.iter.args[0].right) == 1 and norm(l.iter.args[0].left).startswith("len("):
+            X, i_ = norm(l.iter.args[0].left)[4:-1], l.target.id
+            body_txt = " ".join(norm(s_) for s_ in l.body)
+            if f"{X}[{i_}]" in body_txt and (f"{X}[{i_} + 1]" in body_txt or f"{X}[1 + {i_}]" in body_txt):
+                loops.append(l)
     in_loop = [a for a in apps if any(a in list(ast.walk(l)) for l in loops)]
     lab = in_loop[0].value.func.value.id if in_loop and isinstance(in_loop[0].value.func.value, ast.Name) else None
     literal = sum(len(s_.value.elts) for s_ in walk_no_nested(f.node) if isinstance(s_, ast.Assign) and len(s_.targets) == 1
